@@ -12,6 +12,15 @@ BASE_NOTE = (
 
 # property -> (category, text, technique, design_ref, extra note)
 CLAIMS = {
+    "C19": (
+        "other",
+        "Local completeness obligations per Node subclass (enumerated mechanically): every expression-valued field a render method may evaluate is produced by expressions() (or belongs to a child node that reports it), every node field it may render is produced by children(); "
+        "the traversal may skip a partial only when its scope cannot differ from the first visit (isolated scope, same key) or it is being visited. These are structural (field-level) obligations over the real ASTs. "
+        "The traversal's global/local bookkeeping is decided by a bounded dynamic contract check: 1100+ templates over nested loops, captures, assignments, macros, with blocks and partials used twice from different scopes are rendered with a tracking mapping at the globals level; every root name that reaches it, every filter applied and every tag must be in the report.",
+        "structural completeness obligations (pyvc-flow) + bounded dynamic contract check (labelled bounded)",
+        "DESIGN.md section 4 C19",
+        "No symbolic contract on analyze._visit (closures over mutable maps, recursive traversal).",
+    ),
     "C18": (
         "other",
         "Contracts on the real inheritance kernels: _store_blocks (for stacks of 0..2 more-derived definitions: the new definition is appended below them, becomes the parent of the previous one, parent links above are untouched, only an un-overridden required block is effectively required) and "
